@@ -317,12 +317,30 @@ def gen_amount(rng: random.Random, is_ref: bool, units: List[str]) -> Any:
     return {"p": [c.num_json(v), False, None, prep], "numtxt": txt}
 
 
+def spell_unit_pieces(u: str, rng: random.Random) -> str:
+    """A free-form unit written as SEVERAL juxtaposed string tokens (quoted first piece, then quoted or naked pieces):
+    the compiled unit is their concatenation."""
+    cuts = sorted(set(rng.randrange(1, len(u)) for _ in range(rng.randrange(1, 3)))) if len(u) > 1 else []
+    pieces = [u[i:j] for i, j in zip([0] + cuts, cuts + [len(u)])]
+    out, prev_naked = [], True      # the first piece is always quoted (a naked prefix could be a known unit)
+    for pc in pieces:
+        if not prev_naked and _NAKED.fullmatch(pc) and "\\" not in pc and rng.random() < 0.5:
+            out.append(pc)
+            prev_naked = True
+        else:
+            out.append(_quote(pc, rng.choice("\"'"), rng))
+            prev_naked = False
+    return "".join(out)
+
+
 def spell_amount(a: Any, rng: random.Random) -> str:
     if "q" in a:
         v, u, sp, prep = a["q"]
         if a["explicit"]:
             inner = rng.choice(["", " "]) + a["numtxt"]
-            if u is not None:
+            if u is not None and len(u) > 1 and rng.random() < 0.25:
+                inner += sp + spell_unit_pieces(u, rng)
+            elif u is not None:
                 inner += sp + (u if _NAKED.fullmatch(u) and rng.random() < 0.7 else _quote(u, '"', rng))
             inner += rng.choice(["", " "])
             return "{" + inner + "}" + prep
@@ -578,7 +596,29 @@ class Printer:
 
 def spell(program: List[List[Any]], rng: random.Random, canonical: bool = False) -> List[str]:
     p = Printer(rng, canonical)
-    return [p.block(b) for b in program]
+    texts: List[str] = []
+    for i, b in enumerate(program):
+        same = [j for j in range(i) if _same_block(program[j], b)]
+        if same and rng.random() < 0.5:
+            # an equal earlier block: write the very same text again (offsets are then the same too)
+            import copy
+            program[i] = copy.deepcopy(program[same[0]])
+            texts.append(texts[same[0]])
+        else:
+            texts.append(p.block(b))
+    return texts
+
+
+def _strip_offs(x: Any) -> Any:
+    if isinstance(x, dict):
+        return {k: _strip_offs(v) for k, v in x.items() if k not in ("off", "out_offs")}
+    if isinstance(x, list):
+        return [_strip_offs(v) for v in x]
+    return x
+
+
+def _same_block(a: Any, b: Any) -> bool:
+    return _strip_offs(a) == _strip_offs(b)
 
 
 def gen_chain_program(rng: random.Random) -> List[List[Any]]:
@@ -690,11 +730,41 @@ def gen_near_amount_program(rng: random.Random) -> List[List[Any]]:
     return [b1]
 
 
+def gen_repeated_block_program(rng: random.Random) -> List[List[Any]]:
+    """A recipe in which a later block REPEATS an earlier block (equal AST; usually other white space, sometimes the
+    very same text): blocks are told apart by position, never by content."""
+    import copy
+    def ref(n, amt=None):
+        return {"ref": n, "amt": amt, "off": -1}
+
+    def step(n, *ins):
+        return {"step": [n], "ins": list(ins), "short": False}
+
+    def st(outs, e):
+        return {"outs": outs, "named": False, "expr": e, "out_offs": []}
+    w = rng.sample(WORDS[:10], 5)
+    q = {"q": [c.num_json(2), rng.choice([None, "tsp"]), "", ""], "explicit": False, "numtxt": "2"}
+    if q["q"][1]:
+        q["q"][2] = " "
+    first = rng.choice([
+        [st([], ref([w[0]], q))],                                        # "2 tsp salt": an inferred-name sub recipe
+        [st([], step("beaten", ref([w[0]], q)))],                       # "2 eggs, beaten"-like
+        [st([], step(rng.choice(STEPS), ref([w[1]]), ref([w[2]])))],    # no definition at all
+    ])
+    middle = [st([], step(rng.choice(STEPS), ref([w[3]]), ref([w[4]])))]
+    blocks = [first] + ([middle] if rng.random() < 0.6 else []) + [copy.deepcopy(first)]
+    if rng.random() < 0.3:
+        blocks.append([st([], step("serve", ref([w[0]])))])
+    return blocks
+
+
 def gen_program(rng: random.Random, **kw: Any) -> List[List[Any]]:
     if not kw and rng.random() < 0.12:
         return gen_chain_program(rng)
     if not kw and rng.random() < 0.05:
         return gen_near_amount_program(rng)
+    if not kw and rng.random() < 0.04:
+        return gen_repeated_block_program(rng)
     if not kw and rng.random() < 0.06:
         return gen_crossblock_program(rng)
     return ProgramGen(rng, **kw).program()
